@@ -128,6 +128,17 @@ def _library_filter():
     return WcsSampler(np.ones((40, 40), dtype=np.float32), fw).filter()
 
 
+def _within_rounding(pos, q, n, planetary):
+    """'Up to rounding on shared edges' for deep tiles (section 9.3): a side of length w between two unit vectors in
+    double precision is resolved to about 8 ulp / w radians; a lookup that answers with another tile of the same
+    depth is right if the point lies within that distance (plus a thousandth of a tile) of the tile it names."""
+    if pos[0] != n or not (0 <= pos[1] < 2**n and 0 <= pos[2] < 2**n):
+        return False
+    w = (np.pi / 2) / 2**n
+    tol = 1e-3 * w + 8 * np.finfo(float).eps / w
+    return bool(tg.contains(tg.single(n, pos[1], pos[2], planetary)[0], q, tol=tol))
+
+
 def routes(job):
     """The other three routes agree with full enumeration / the reference."""
     from toasty import toast
@@ -213,8 +224,10 @@ def routes(job):
                 bad("route-lookup/negative-longitude", "lookup at the tile's centre with lon - 2 pi returned %r, with lon %r" % (tuple(pneg.pos), tuple(pt.pos)), cfg)
         except Exception as e:
             bad("route-lookup/raises:%s" % type(e).__name__, repr(e), cfg)
-        if tuple(pt.pos) != (n, x, y):
+        if tuple(pt.pos) != (n, x, y) and not _within_rounding(tuple(pt.pos), cen, n, planetary):
             bad("route-lookup/wrong-tile", "lookup at the tile's centre returned %r" % (tuple(pt.pos),), cfg)
+        elif tuple(pt.pos) != (n, x, y):
+            part.count("deep_lookups_resolved_to_a_neighbour_within_rounding")
         elif tg.angdist(tvec(pt), vs).max() > 1e-12 or bool(pt.increasing) != bool(s.increasing):
             bad("routes-disagree/lookup-vs-single", "corners differ by %.3g rad" % tg.angdist(tvec(pt), vs).max(), cfg)
         # the pixel lookup hands back a tile as well: the same one
@@ -240,7 +253,9 @@ def routes(job):
                 except Exception as e:
                     bad("route-lookup/raises:%s" % type(e).__name__, repr(e), cfg)
                     break
-                if tuple(pq.pos) != (n, x, y):
+                if tuple(pq.pos) != (n, x, y) and _within_rounding(tuple(pq.pos), q, n, planetary):
+                    part.count("deep_lookups_resolved_to_a_neighbour_within_rounding")
+                elif tuple(pq.pos) != (n, x, y):
                     bad("route-lookup/wrong-tile-near-corner", "lookup 4%% inside corner %d returned %r" % (k, tuple(pq.pos)), cfg)
                     break
     part.sample({"routes": "single/filtered/lookup", "coordsys": "both, alternating", "example": positions[len(positions) // 2]})
